@@ -191,6 +191,36 @@ def check_integer_data(rng):
     return None, None
 
 
+def check_environments():
+    """tight heavy clusters plus far stragglers of negligible weight (the shape of an importance-weighted history), fitted in the default
+    environment, with warnings turned into errors and under np.errstate(divide='raise', invalid='raise'): the fit completes and the
+    invariants hold in each"""
+    import warnings as _w, contextlib
+    for d, seed in ((1, 1), (2, 2), (3, 3)):
+        r = np.random.RandomState(seed)
+        c1, c2 = np.full(d, 0.2), np.full(d, 0.8)
+        X = np.vstack([r.randn(120, d) * 0.01 + c1, r.randn(120, d) * 0.01 + c2, r.rand(6, d)])
+        w = np.r_[r.gamma(2.0, size=240), np.full(6, 1e-12)]
+        for env in ("default", "warnings-as-errors", "errstate-raise"):
+            with _w.catch_warnings(), (np.errstate(divide="raise", invalid="raise") if env == "errstate-raise" else contextlib.nullcontext()):
+                _w.simplefilter("error" if env == "warnings-as-errors" else "ignore")
+                for ct in ("full", "diag"):
+                    try:
+                        e = check_mixture(f"skewed d={d}", X, "skewed", w, ct, 2)
+                    except (Warning, FloatingPointError) as ex:
+                        e = f"fit raised {type(ex).__name__}: {ex}"
+                    if e and not (env != "default" and "bounding box" in e):
+                        return f"[{env}] {e}", {"d": d, "environment": env, "covariance_type": ct}
+                for normalize in (False, True):
+                    try:
+                        e = check_hier(f"skewed d={d}", X, "skewed", w, None, normalize, 1.0)
+                    except (Warning, FloatingPointError) as ex:
+                        e = f"fit raised {type(ex).__name__}: {ex}"
+                    if e:
+                        return f"[{env}] hierarchical model (normalize={normalize}): {e}", {"d": d, "environment": env, "normalize": normalize}
+    return None, None
+
+
 def check_dimension_sequence():
     """one default-configured estimator reused for data sets of increasing dimension: the minimum cluster size is 2*d of the data set
     being fitted (the constructor was given min_points=None), whatever was fitted before"""
@@ -219,7 +249,7 @@ def main():
     p = json.load(open(sys.argv[1]))
     rng = np.random.RandomState(int(p.get("seed", 0)))
     tried = 0
-    for fn, args in ((check_integer_data, (np.random.RandomState(77),)), (check_dimension_sequence, ())):
+    for fn, args in ((check_integer_data, (np.random.RandomState(77),)), (check_dimension_sequence, ()), (check_environments, ())):
         tried += 1
         try:
             e, what = fn(*args)
